@@ -505,6 +505,31 @@ Proof.
     destruct (py_call_query "sample" (gen_query_sample O n) (s, RsGlobal g)) as [[s' src'] r]. intro H. rewrite <- H. reflexivity.
 Qed.
 
+(* ---- the class tree and _select_candidates ---- *)
+Theorem C19_bridge2_subclasses : py_as_cands (gen_subclasses PyScipyModel) = map CClass all_families.
+Proof. reflexivity. Qed.
+Theorem C19_bridge2_class_attrs : forall f,
+  gen_PARAMETRIC (PyFam f) = fam_parametric f /\ gen_BOUNDED (PyFam f) = fam_bounded f.
+Proof. destruct f; split; reflexivity. Qed.
+Theorem C19_bridge2_select_candidates : forall par bnd,
+  gen_Univariate__select_candidates par bnd = select_candidates par bnd.
+Proof. intros [[|]|] [[| |]|]; vm_compute; reflexivity. Qed.
+
+(* ---- Univariate.__init__ (under @store_args) ---- *)
+Theorem C19_bridge2_wrapper_init : forall args kw, gen_Univariate___init__ args kw = new_wrapper args kw.
+Proof.
+  intros args kw. unfold gen_Univariate___init__, new_wrapper, r_bind, py_bind_args.
+  destruct (bind_args ["candidates"; "parametric"; "bounded"; "random_state"; "selection_sample_size"] args kw) as [b|e]; [|reflexivity].
+  cbn [bind]. unfold py_arg, py_None.
+  destruct (getd "parametric" b (UJ JNone)) as [[]| | |] eqn:EP;
+  destruct (getd "bounded" b (UJ JNone)) as [[]| | |] eqn:EB;
+  destruct (getd "candidates" b (UJ JNone)) as [[]|[|? ?]| |] eqn:EC; cbn [bind py_arg_cands py_arg_ptype py_arg_btype]; try reflexivity;
+  rewrite ?C19_bridge2_select_candidates;
+  (destruct (getd "random_state" b (UJ JNone)) as [?j| | |]; cbn [bind py_validate_random_state]; try reflexivity;
+   destruct (validate_rs j) as [rs|e]; cbn [bind]; try reflexivity;
+   destruct (getd "selection_sample_size" b (UJ JNone)); reflexivity).
+Qed.
+
 (* ===================================================================================================== *)
 Print Assumptions C19_bridge2_hook_is_constant.
 Print Assumptions C19_bridge2_hook_extract_constant.
@@ -532,3 +557,7 @@ Print Assumptions C19_bridge2_gen_qi_cdf.
 Print Assumptions C19_bridge2_gen_qi_ppf.
 Print Assumptions C19_bridge2_wrapper_to_dict.
 Print Assumptions C19_bridge2_wrapper_sample.
+Print Assumptions C19_bridge2_subclasses.
+Print Assumptions C19_bridge2_class_attrs.
+Print Assumptions C19_bridge2_select_candidates.
+Print Assumptions C19_bridge2_wrapper_init.
